@@ -96,12 +96,17 @@ Fixpoint assign_scopes (scopes : list (list entry)) : option (list (sym * string
       end
   end.
 
+(* the names given to global variables (symbol kind 3) *)
+Definition gvar_names (globals : list (sym * string)) : list string :=
+  map snd (filter (fun p : sym * string => N.eqb (fst (fst p)) 3) globals).
+
 Definition build (scopes : list (list entry)) (locals : list (N * string))
   : option (list (sym * string) * list (N * string)) :=
   match assign_scopes scopes with
   | None => None
   | Some (globals, gens) =>
-      match assign_locals locals (map snd locals) (gens ++ reserved)%list [] with
+      (* a global variable can become a function parameter (Metal): a local never shares the name of one *)
+      match assign_locals locals (map snd locals) (gvar_names globals ++ gens ++ reserved)%list [] with
       | None => None
       | Some ls => Some (globals, ls)
       end
